@@ -7,6 +7,7 @@ from engine.flow import Flow, _walk_no_nested
 from engine.linear import form, NotLinear, atom, const
 from engine.loader import AnalysisError
 from . import shape as S
+from . import ctxmodel
 from .ctxuse import attr_reads, single_defs, ctx_chain, print_sites
 
 META = {
@@ -155,6 +156,11 @@ def run(repo, rep):
                         reads.append((f, x))
         elif isinstance(p, ast.Call) and call_name(p) in ('type', 'isinstance') and p.args and p.args[0] is node:
             use = 'type test'
+        elif isinstance(p, ast.BinOp) and isinstance(p.op, ast.Sub) and p.left is node and src(p.right) == '1' \
+                and isinstance(par.get(id(p)), ast.keyword) and par[id(p)].arg == ATTR and isinstance(par.get(id(par[id(p)])), ast.Call) \
+                and ctxmodel._derives_like_public(repo, f, par[id(par[id(p)])]):
+            # the decrement handed to the copier by a helper that - interpreted - derives contexts the way nested_call does
+            use = 'decrement in the derivation helper %s' % f.name
         elif isinstance(p, ast.BinOp) and isinstance(p.op, ast.Sub) and p.left is node and src(p.right) == '1' and f.key in judged \
                 and isinstance(par.get(id(p)), ast.Compare) and len(par[id(p)].ops) == 1 and par[id(p)].left is p \
                 and src(par[id(p)].comparators[0]) == '0' and _is_branch_test(par, par[id(p)]):
@@ -189,7 +195,6 @@ def run(repo, rep):
     n2 = entrymodel.report(repo, rep, 'C11.a', lambda k: k in ('ctx:depth', 'ctx:depth-none-is-unlimited', 'given:single-path', 'none:single-path',
                                                                  'value-printed', 'context-is-a-PrettyContext'),
                            'the requested depth does not reach the root context')
-    from . import ctxmodel
     n2 += ctxmodel.report(repo, rep, 'C11.a', lambda k: k == 'ctor:stores:depth_left')
 
     # ---------------------------------------------------------------- C11.b
